@@ -5,22 +5,22 @@
 
 package x25
 
-//@ func New
+//@ func New returns (res)
 //@   ensures res != nil && freshPtr(res) && res.crc == 0xFFFF
 //@   canary  res.crc == 0
 //@   modifies nothing
 
-//@ func (*X25).Reset
+//@ func (*X25).Reset params (x)
 //@   requires x != nil
 //@   ensures  x.crc == 0xFFFF
 //@   modifies x.crc
 
-//@ func (*X25).Sum16
+//@ func (*X25).Sum16 params (x) returns (res)
 //@   requires x != nil
 //@   ensures  res == x.crc
 //@   modifies nothing
 
-//@ func (*X25).Write
+//@ func (*X25).Write params (x, p)
 //@   requires x != nil
 //@   ensures  x.crc == crcFold(old(x.crc), p, len(p))
 //@   canary   x.crc == old(x.crc)
@@ -32,17 +32,17 @@ package x25
 //@   loop 0 modifies x.crc
 //@   loop 0 decreases len(p) - i
 
-//@ func (*X25).Sum
+//@ func (*X25).Sum params (x, b) returns (res)
 //@   requires x != nil
 //@   ensures  [appends-the-crc-low-byte-first] len(res) == len(b) + 2 && res[len(b)] == byte(x.crc) && res[len(b)+1] == byte(x.crc >> 8)
 //@   ensures  [prefix-kept] forall k int :: 0 <= k && k < len(b) ==> res[k] == old(b[k])
 //@   ensures  [state-kept] x.crc == old(x.crc)
 //@   modifies b[len(b):cap(b)]
 
-//@ func (*X25).Size
+//@ func (*X25).Size params (x) returns (res)
 //@   ensures  res == 2
 //@   modifies nothing
 
-//@ func (*X25).BlockSize
+//@ func (*X25).BlockSize params (x) returns (res)
 //@   ensures  res == 1
 //@   modifies nothing
